@@ -109,6 +109,13 @@ ALPHABET["collect"] = msg("collect", FLY)
 ALPHABET["monitor"] = msg("monitor", SIG)
 ALPHABET["unmonitor"] = msg("unmonitor", SIG)
 ALPHABET["subscribe"] = msg("subscribe", None, CALLBACK, "all")
+# a second run, open at the same time as the first (run key "b"), with its own monitored signal (C41)
+SIG_B = Opaque("sig_b", {"token": "dev", "truth": True, "isinstance_default": False, "isinstance": {"Subscribable": True},
+                         "hasattr": {"pause": False, "resume": False, "stop": False, "name": True}, "attrs": {"name": "sig_b", "parent": None}, "methods": {}})
+ALPHABET["open_run_b"] = msg("open_run", run="b")
+ALPHABET["close_run_b"] = msg("close_run", run="b")
+ALPHABET["monitor_b"] = msg("monitor", SIG_B, run="b")
+ALPHABET["unmonitor_b"] = msg("unmonitor", SIG_B, run="b")
 
 
 def _none():
@@ -121,8 +128,12 @@ REQUEST_COROS = {"_request_pause_coro", "_abort_coro", "_stop_coro", "_halt_coro
 
 class Scenario:
     def __init__(self, I, plan_msgs, env=(), post_pause=("resume", "abort", "stop", "halt"), max_requests=None, handles=True,
-                 can_raise=True, engine_kw=None, max_inflight=1, max_depth=2, second_call=None, max_runs=2, suspend_plans=False, re_attrs=None, pretripped=None):
+                 can_raise=True, engine_kw=None, max_inflight=1, max_depth=2, second_call=None, max_runs=2, suspend_plans=False, re_attrs=None, pretripped=None,
+                 paused_env=()):
         self.max_depth = max_depth
+        # requests another thread makes while the engine sits *paused* and the main thread is at the prompt (the loop thread is alive
+        # and processes them at once): e.g. a suspender tripping during a pause.  At most one per visit of the paused state (opt-in)
+        self.paused_env = tuple(paused_env.split(",")) if isinstance(paused_env, str) else tuple(paused_env)
         self.pretripped = pretripped
         self.re_attrs = dict(re_attrs or {})
         self.suspend_plans = suspend_plans
@@ -190,7 +201,7 @@ class Scenario:
         call_method(I, self.re, "register_command", "custom", native(custom))
         call_method(I, self.re, "register_command", "custom_async", native(custom_async))
         # A-RUNS: a plan opens at most `max_runs` runs per scenario (the ledger of opened runs is ghost state of C13)
-        self.plan = Plan(eng, "plan", lambda p: [(m, ALPHABET[m]) for m in plan_msgs if not (m == "open_run" and len(eng.bundlers) >= max_runs)],
+        self.plan = Plan(eng, "plan", lambda p: [(m, ALPHABET[m]) for m in plan_msgs if not (m.startswith("open_run") and len(eng.bundlers) >= max_runs)],
                          handles=handles, can_raise=can_raise)
         uncacheable = set(I.getattr(self.re, "_UNCACHEABLE_COMMANDS"))
         eng.replay_alphabet = lambda p: [(m, ALPHABET[m]) for m in plan_msgs if ALPHABET[m]().command not in uncacheable]
@@ -308,6 +319,22 @@ class Scenario:
                 on_return("__call__", r)
             while eng.state == "paused" and self.post_pause:
                 self.loop.cut("main thread: engine paused")       # closure on the paused configuration
+                if self.paused_env and (self.max_requests is None or len(self.requests) < self.max_requests):
+                    k = w.choose(["nothing"] + list(self.paused_env), "while paused")
+                    if k != "nothing":
+                        self.loop.env_thread = True
+                        try:
+                            if k == "suspend":
+                                self.request("suspend", self.do_suspend)
+                            else:
+                                self.request(k, lambda k=k: call_method(self.I, self.re, "request_pause", k == "pause_defer"))
+                        finally:
+                            self.loop.env_thread = False
+                        while self.loop.ready:                    # the loop thread handles the request while the main thread is idle
+                            self.loop.step_one()
+                        eng.event("cut", "main thread: engine paused, request handled")
+                        if eng.state != "paused":
+                            break
                 d = w.choose(list(self.post_pause), "post-pause decision")
                 if d != "resume":
                     self.requests.append(d)
